@@ -544,7 +544,7 @@ def register(generators, gm):
             shapes["T::from_bit_mask"] = shapes["SetMember<Attribute>::from_bit_mask"]
             va = vocab(checked=["Set", "Iter"], type_alias={"T": ATTR, "Self::Item": ATTR, "Item": ATTR},
                        consts={"T::MAX_VALUE": ("g_ya_attr_MAX_VALUE", U8)},
-                       fuel={"Iter::next": [lambda env: "(S (N.to_nat g_ya_attr_MAX_VALUE))"]})
+                       fuel={"Iter::next": [lambda env: "(S (S (N.to_nat g_ya_attr_MAX_VALUE)))"]})
             out.append(translate(src["set.rs"], va, [
                 ("eq", "Set", "g_ya_set_eq", {"trait": "PartialEq"}),
                 ("contains", "Set", "g_ya_seta_contains", {"key": "SetA::contains"}),
